@@ -372,6 +372,8 @@ FASTOR_INLINE bool isequal(
         const double Tol=PRECI_TOL) {
     if ( DIMS0 != DIMS1) return false;
     if ( _src0.self().size() != _src1.self().size()) return false;
+    // for integral types the tolerance truncates to zero and |a-b| < 0 never holds
+    FASTOR_IF_CONSTEXPR (is_integral_v_<typename Derived0::scalar_type>) return all_of( _src0.self() == _src1.self());
     return all_of( abs(_src0.self() - _src1.self()) < Tol);
 }
 template<class Derived0, size_t DIMS0, class Derived1, size_t DIMS1,
@@ -382,6 +384,8 @@ FASTOR_INLINE bool isequal(
         const double Tol=PRECI_TOL) {
     if ( DIMS0 != DIMS1) return false;
     if ( _src0.self().size() != _src1.self().size()) return false;
+    // for integral types the tolerance truncates to zero and |a-b| < 0 never holds
+    FASTOR_IF_CONSTEXPR (is_integral_v_<typename Derived0::scalar_type>) return all_of( evaluate(_src0.self() - _src1.self()) == 0);
     return all_of( abs(evaluate(_src0.self() - _src1.self())) < Tol);
 }
 //----------------------------------------------------------------------------------------------------------//
